@@ -13,3 +13,8 @@ Definition k18_opt (r : option (list Q)) (out : list Q) (tol : Q) : bool :=
 From IV Require Import IsimipStep3.
 Definition k21 (sig : bool) (years : list Z) (x out trend : list Q) (tol : Q) : bool :=
   close_list (step3_remove sig years x) out tol && close_list (step3_trend sig years x) trend tol.
+
+(** K22 (ISIMIP window pipeline for an unbounded additive variable, rational distribution) *)
+From IV Require Import Dist Ecdf RatLS IsimipWindow.
+Definition k22 (em : ecdf_method) (im : iecdf_method) (so sh sf : bool) (yo yh yf : list Z) (obs hist fut out : list Q) (tol : Q) : bool :=
+  close_list (isimip_window ratls em im (1 # 10000000000) so sh sf yo yh yf obs hist fut) out tol.
